@@ -101,3 +101,18 @@ Fixpoint flush_ids_change (prev : option bytes) (h : list hop) : bool :=
       end
   | _ :: t => flush_ids_change prev t
   end.
+
+(* ---------- several sessions (see SyncedPool.restart_pool): a new Producer, Initialize(names, nil) *)
+Definition restart_flagged (fk : bytes) (s : frun_state) (k : nat) (o : list name) : option frun_state :=
+  let w := crash (fr_log s) k in
+  match check_synced fk w with
+  | COk _ =>
+      Some (mkFRun (map (fun nc => (fst nc, false)) w) (mkSpec w [])
+                   (firstn k (fr_log s) ++ map DOpen (arrange o (map fst w)))
+                   (filter (fun rc => Nat.leb (r_pos rc) k) (fr_recs s)))
+  | _ => None
+  end.
+
+(* the flush ID a successful recovery reported (the mark without its prefix byte) *)
+Definition verdict_id (r : cres) : option bytes :=
+  match r with COk (Some (_ :: id)) => Some id | _ => None end.
